@@ -11,7 +11,7 @@ import (
 func init() {
 	register(&propInfo{
 		ID:          "C08",
-		Explanation: "Close-once typestate and path analysis of client channels: (R08.1) the caller's channel is closed only inside the buffering goroutine, every close is followed by return on all paths (no further select, send or close), and values are sent to it only from there; (R08.2) every invocation of a sink callback with ok=false is preceded, under the sink lock, by removing the sink from the table it was looked up in (so the close notification, connection loss and client close cannot each close it), and the intake channel is closed only on the ok=false branch of the sink; (R08.3) the sink closer visits every entry of the table, unconditionally, and runs on every loss path before redialling and on every loop exit; (R08.4) the buffering goroutine always selects on the subscription context, whose arm closes the caller's channel and returns, and the sink drops values once that context is done; (R08.5) the forwarder's parallel slices use one removal scheme (otherwise a handler's close closes another caller's channel); (R08.6) a channel-id response sets up its sink once: after delivering it the in-flight entry is removed on every path. (R08.9) the close-when-drained test looks at the buffer itself.",
+		Explanation: "Close-once typestate and path analysis of client channels: (R08.1) the caller's channel is closed only inside the buffering goroutine, every close is followed by return on all paths (no further select, send or close), and values are sent to it only from there; (R08.2) every invocation of a sink callback with ok=false is preceded, under the sink lock, by removing the sink from the table it was looked up in (so the close notification, connection loss and client close cannot each close it), and the intake channel is closed only on the ok=false branch of the sink; (R08.3) the sink closer visits every entry of the table, unconditionally, and runs on every loss path before redialling and on every loop exit; (R08.4) the buffering goroutine always selects on the subscription context, whose arm closes the caller's channel and returns, and the sink drops values once that context is done; (R08.5) the forwarder's parallel slices use one removal scheme (otherwise a handler's close closes another caller's channel); (R08.6) a channel-id response sets up its sink once: after delivering it the in-flight entry is removed on every path. (R08.9) the close-when-drained test looks at the buffer itself. (R08.10) no value is dropped by a test of its payload bytes.",
 		NotDecided:  "That termination happens eventually under a given schedule; prefix property of received values beyond ordering (C07) — values are not inspected.",
 		Assumptions: []string{"closing a reflect channel twice panics; a select on a closed intake yields ok=false"},
 		Run:         runC08,
